@@ -6,6 +6,12 @@
 // out  : {"results":[{id, valid, verr, inst: "ok"|"trap:<class>"|"error:<msg>", calls:[text...],
 //                      globals:{name:text}, mem:{pages,sha,nz:[[addr,hex]...]}, log:[int...]}]}
 // value text: i32/i64 decimal (i64 via BigInt), f32/f64 hex bit pattern, NaN -> "nan".
+// C23 additions (all optional, nothing changes when absent):
+//   import {kind:"func", ext:{params:[wasm type...], norm:[null|[bits, signed]...], ret:null|"i32"|"i64"|"f32"|"f64"}}
+//     -> generated host function: appends [name, [arg text...]] to the run's trace and answers like
+//        vlib.refinterp.default_external (count = number of external calls so far in this run);
+//   module "fresh": true  -> every call runs on a fresh instance; results go to runs:[{ret, trace, mem:[hex...]}]
+//   module "memdump": [[addr, len]...] with "memory": exportname -> bytes of those ranges after the call.
 'use strict';
 const fs = require('fs');
 const crypto = require('crypto');
@@ -61,6 +67,58 @@ function memInfo(memory) {
   return { pages: n / 65536, sha: sha, nz: nz };
 }
 
+function extHost(im, ext) {
+  const e = im.ext;
+  return function () {
+    ext.count += 1;
+    const shown = [];
+    let acc = BigInt(ext.count * 7 + 3);
+    for (let i = 0; i < im.name.length; i++) acc = (acc * 31n + BigInt(im.name.charCodeAt(i))) & 0xFFFFn;
+    for (let i = 0; i < e.params.length; i++) {
+      shown.push(toText(e.params[i], arguments[i]));
+      if (e.norm[i]) {
+        const a = e.norm[i][1] ? BigInt.asIntN(e.norm[i][0], BigInt(arguments[i])) : BigInt.asUintN(e.norm[i][0], BigInt(arguments[i]));
+        acc = BigInt.asUintN(16, acc * 17n + a);
+      }
+    }
+    ext.trace.push([im.name, shown]);
+    if (!e.ret) return undefined;
+    if (e.ret === 'f32' || e.ret === 'f64') return Number(acc % 97n) / 4.0;
+    const v = acc % 61n;
+    return e.ret === 'i64' ? v : Number(v);
+  };
+}
+
+function runFresh(m, bytes, imports, ext, res) {
+  let module;
+  try { module = new WebAssembly.Module(bytes); } catch (e) { res.inst = classify(e); return res; }
+  res.inst = 'ok';
+  res.runs = [];
+  for (const c of m.calls || []) {
+    ext.count = 0;
+    ext.trace = [];
+    const run = {};
+    try {
+      const inst = new WebAssembly.Instance(module, imports);
+      try {
+        const args = c.args.map((a) => toJs(a[0], a[1]));
+        run.ret = toText(c.ret, inst.exports[c.f].apply(null, args));
+      } catch (e) {
+        run.ret = classify(e);
+      }
+      if (m.memory && inst.exports[m.memory]) {
+        const buf = Buffer.from(inst.exports[m.memory].buffer);
+        run.mem = (m.memdump || []).map((d) => buf.subarray(d[0], d[0] + d[1]).toString('hex'));
+      }
+    } catch (e) {
+      run.ret = 'inst:' + classify(e);
+    }
+    run.trace = ext.trace;
+    res.runs.push(run);
+  }
+  return res;
+}
+
 function runModule(m) {
   const res = { id: m.id, valid: false };
   const bytes = Buffer.from(m.wasm, 'base64');
@@ -80,9 +138,11 @@ function runModule(m) {
     hmix: (a, b, c) => (a + Number(BigInt.asIntN(32, b)) + (c > 0 ? 1 : 0)) | 0,
   };
   const imports = {};
+  const ext = { count: 0, trace: [] };
   for (const im of m.imports || []) {
     const ns = imports[im.module] || (imports[im.module] = {});
-    if (im.kind === 'func') ns[im.name] = host[im.name];
+    if (im.kind === 'func' && im.ext) ns[im.name] = extHost(im, ext);
+    else if (im.kind === 'func') ns[im.name] = host[im.name];
     else if (im.kind === 'global') {
       const v = { i32: 7, i64: 9n, f32: 1.5, f64: 2.5 }[im.typ];
       ns[im.name] = new WebAssembly.Global({ value: im.typ, mutable: !!im.mut }, v);
@@ -96,6 +156,7 @@ function runModule(m) {
       ns[im.name] = new WebAssembly.Table(d);
     }
   }
+  if (m.fresh) return runFresh(m, bytes, imports, ext, res);
   let inst;
   try {
     inst = new WebAssembly.Instance(new WebAssembly.Module(bytes), imports);
